@@ -166,6 +166,7 @@ def _r2(run, prog, eff):
                                                                      ' (it patches %s in place instead)' % patched if patched else ''))
     run.floor('C01-R2', 12)
     _one_sided_builder_stores(run, prog)
+    _detach_reaches_old(run, prog)
     # builders must reset the derived state before any source-dependent early return
     run.describe('C01-R2b', 'a builder clears the old derived objects before any early return')
     for q, spec in NODES.items():
@@ -200,6 +201,49 @@ def _r2(run, prog, eff):
                     run.fail('C01-R2b', '%s|%s|%s|early-return-keeps-old-state' % (ci.mod.name, ci.name, b), ci.mod.relpath, r.lineno,
                              "%s.%s returns early (%s) without clearing the materials built before: after the models, plasma or spectrum "
                              "are removed the old materials keep emitting" % (ci.name, b, norm(_enclosing_test(fn, r))[:90]))
+
+
+def _detach_reaches_old(run, prog):
+    """R2d: what a builder detaches is what the *previous* configuration attached.  Detaching all current children, or the elements of a
+    list only the builder itself assigns, reaches them; detaching through a configuration field (self.<field>.parent = None) whose setter
+    has already stored the new object by the time the builder runs detaches the new object and leaves the old one attached."""
+    run.describe('C01-R2d', 'a builder detaches the objects attached by the previous configuration (not the object a setter has just stored)')
+    from ..inline import flatten, class_lookup
+    eff = Effects(prog)
+    for q, spec in NODES.items():
+        ci = prog.cls(q)
+        for b in spec['builders']:
+            fn0 = prog.method(ci, b)
+            if fn0 is None:
+                continue
+            try:
+                fn = flatten(fn0, class_lookup(prog, ci))
+            except Exception:
+                fn = fn0
+            for st in ast.walk(fn):
+                if not (isinstance(st, ast.Assign) and len(st.targets) == 1 and isinstance(st.targets[0], ast.Attribute) and st.targets[0].attr == 'parent'
+                        and norm(st.value) == 'None'):
+                    continue
+                tgt = st.targets[0].value
+                if not (isinstance(tgt, ast.Attribute) and norm(tgt.value) == 'self'):
+                    continue                       # a loop variable: all children / the elements of a list
+                fld = tgt.attr
+                run.subject('C01-R2d')
+                writers = []
+                for mname, m in list(ci.methods.items()) + list(ci.setters.items()):
+                    if mname in spec['builders'] or mname in ('__init__', '__cinit__'):
+                        continue
+                    try:
+                        if fld in eff.summary(m).writes and any(isinstance(c, ast.Call) and dotted(c.func) == 'self.' + b for c in ast.walk(m)):
+                            writers.append(mname)
+                    except Exception:
+                        pass
+                if writers:
+                    run.fail('C01-R2d', '%s|%s|%s|detaches-new:%s' % (ci.mod.name, ci.name, b, fld), ci.mod.relpath, st.lineno,
+                             "%s.%s detaches self.%s, but %s stores the new object in that field before calling it: the object attached by the "
+                             "previous configuration is never detached and keeps emitting next to the new one" % (ci.name, b, fld, writers[0]))
+                else:
+                    run.ok('C01-R2d', '%s.%s detaches self.%s' % (ci.name, b, fld), 'field assigned by the builder only', sample=False)
 
 
 def _one_sided_builder_stores(run, prog):
